@@ -1,1 +1,1215 @@
-fn main() { eprintln!("engine not built yet"); std::process::exit(2); }
+//! C10 — intersections lie on both objects and report the right kind of contact.
+//!
+//! Form I (small-scope input enumeration), level "exploration".  Every configuration is built from
+//! INTEGER data (lattice points, integer radii), so its geometric class (none / tangent / two points /
+//! identical, inside / border / outside, on / off the line, parallel / crossing) is decided EXACTLY in
+//! i128 arithmetic.  The real library is then fed the f64 image of the configuration under a similarity
+//! transform (identity = lattice 1; rational rotation + translation by quarters + integer scaling =
+//! lattice 2), which preserves the class, and its answers are compared with the exact class and with
+//! the f64 evaluation of the exact algebraic intersection points.
+//!
+//! Nothing here is sampled: all centres x radii x ordered point pairs of the stated lattice are visited.
+
+use rayon::prelude::*;
+use rlib_geometry::circle::{Circle, PointPosition};
+use rlib_geometry::line::Line;
+use rlib_geometry::point::Point;
+use rlib_geometry::util::{self, CircleIntersection, CircleLineIntersection};
+use std::collections::BTreeMap;
+use vcore::*;
+
+/// the property's accuracy demand on returned points
+const TOL: f64 = 1e-7;
+/// the property restricts that demand to coordinates up to 1e3
+const COORD_LIMIT: f64 = 1e3;
+/// every non-zero distance to a boundary between kinds must exceed this on the lattice (library EPS = 1e-9)
+const GAP_FLOOR: f64 = 1e-6;
+
+type IP = (i64, i64);
+
+// ------------------------------------------------------------------------------------------------
+// similarity transform: rotate by (p/h, q/h), translate by (tx/4, ty/4), scale by s
+// ------------------------------------------------------------------------------------------------
+
+#[derive(Clone, Copy, Debug, PartialEq)]
+struct Tf {
+    p: i64,
+    q: i64,
+    h: i64,
+    tx: i64,
+    ty: i64,
+    s: i64,
+}
+
+impl Tf {
+    const ID: Tf = Tf { p: 1, q: 0, h: 1, tx: 0, ty: 0, s: 1 };
+
+    fn is_id(&self) -> bool {
+        *self == Tf::ID
+    }
+    /// image of an integer point (numerators exact, one division, one addition, one multiplication)
+    fn pt(&self, (x, y): IP) -> Point {
+        let xr = (self.p * x - self.q * y) as f64 / self.h as f64 + self.tx as f64 / 4.0;
+        let yr = (self.q * x + self.p * y) as f64 / self.h as f64 + self.ty as f64 / 4.0;
+        Point::new(self.s as f64 * xr, self.s as f64 * yr)
+    }
+    /// image of a real point of the pre-image plane (used for the reference intersection points)
+    fn ptf(&self, x: f64, y: f64) -> (f64, f64) {
+        let (p, q, h) = (self.p as f64, self.q as f64, self.h as f64);
+        let xr = (p * x - q * y) / h + self.tx as f64 / 4.0;
+        let yr = (q * x + p * y) / h + self.ty as f64 / 4.0;
+        (self.s as f64 * xr, self.s as f64 * yr)
+    }
+    fn rad(&self, r: i64) -> f64 {
+        (r * self.s) as f64
+    }
+    fn tag(&self) -> String {
+        if self.is_id() {
+            "id".to_string()
+        } else {
+            format!("rot{}/{}+({},{})/4*{}", self.p, self.h, self.tx, self.ty, self.s)
+        }
+    }
+    fn json(&self) -> Value {
+        json!([self.p, self.q, self.h, self.tx, self.ty, self.s])
+    }
+    fn from_json(v: &Value) -> Tf {
+        let g = |i: usize| v[i].as_i64().unwrap();
+        Tf { p: g(0), q: g(1), h: g(2), tx: g(3), ty: g(4), s: g(5) }
+    }
+}
+
+// ------------------------------------------------------------------------------------------------
+// accumulator (one per rayon task, merged deterministically)
+// ------------------------------------------------------------------------------------------------
+
+type Key = (u64, u64, u64);
+
+#[derive(Clone, Copy)]
+#[repr(usize)]
+enum C {
+    Evals,
+    Nontrivial,
+    SkippedOutOfDomain,
+    ClNone,
+    ClTouch,
+    ClIntersect,
+    ClTouchNonAxis,
+    CcNoneOutside,
+    CcNoneInside,
+    CcSame,
+    CcTouchInside,
+    CcTouchOutside,
+    CcIntersect,
+    CcTouchInsideNonAxis,
+    CcTouchOutsideNonAxis,
+    LlParallel,
+    LlPoint,
+    LlPointFar,
+    PosInside,
+    PosBorder,
+    PosOutside,
+    PosBorderOffAxis,
+    ContainsOn,
+    ContainsOff,
+    ObsClTouch,
+    ObsClIntersect,
+    ObsCcTouchInside,
+    ObsCcTouchOutside,
+    ObsCcIntersect,
+    ObsCcSame,
+    ObsLlSome,
+    N,
+}
+
+const CNAMES: [&str; C::N as usize] = [
+    "evaluations",
+    "distinct_nontrivial",
+    "skipped_out_of_domain",
+    "exact_cl_none",
+    "exact_cl_touch",
+    "exact_cl_intersect",
+    "exact_cl_touch_non_axis_aligned",
+    "exact_cc_none_outside",
+    "exact_cc_none_inside",
+    "exact_cc_same",
+    "exact_cc_touch_inside",
+    "exact_cc_touch_outside",
+    "exact_cc_intersect",
+    "exact_cc_touch_inside_non_axis_aligned",
+    "exact_cc_touch_outside_non_axis_aligned",
+    "exact_ll_parallel",
+    "exact_ll_point",
+    "exact_ll_point_beyond_1e3_point_check_skipped",
+    "exact_position_inside",
+    "exact_position_border",
+    "exact_position_outside",
+    "exact_position_border_off_axis",
+    "exact_contains_on",
+    "exact_contains_off",
+    "observed_cl_touch",
+    "observed_cl_intersect",
+    "observed_cc_touch_inside",
+    "observed_cc_touch_outside",
+    "observed_cc_intersect",
+    "observed_cc_same",
+    "observed_ll_some",
+];
+
+#[derive(Clone)]
+struct Acc {
+    c: [u64; C::N as usize],
+    gap_cl: f64,
+    gap_cc: f64,
+    gap_pos_rel: f64,
+    gap_contains: f64,
+    gap_parallel: f64,
+    max_dev: f64,
+    fails: BTreeMap<&'static str, (Key, Violation)>,
+    fail_counts: BTreeMap<&'static str, u64>,
+    notes: BTreeMap<&'static str, (Key, Value)>,
+}
+
+impl Acc {
+    fn new() -> Acc {
+        Acc {
+            c: [0; C::N as usize],
+            gap_cl: f64::INFINITY,
+            gap_cc: f64::INFINITY,
+            gap_pos_rel: f64::INFINITY,
+            gap_contains: f64::INFINITY,
+            gap_parallel: f64::INFINITY,
+            max_dev: 0.0,
+            fails: BTreeMap::new(),
+            fail_counts: BTreeMap::new(),
+            notes: BTreeMap::new(),
+        }
+    }
+    #[inline]
+    fn inc(&mut self, k: C) {
+        self.c[k as usize] += 1;
+    }
+    fn get(&self, k: C) -> u64 {
+        self.c[k as usize]
+    }
+    fn fail(&mut self, fam: &'static str, key: Key, mk: impl FnOnce() -> Violation) {
+        *self.fail_counts.entry(fam).or_insert(0) += 1;
+        match self.fails.get(fam) {
+            Some((k, _)) if *k <= key => {}
+            _ => {
+                self.fails.insert(fam, (key, mk()));
+            }
+        }
+    }
+    fn note(&mut self, cat: &'static str, key: Key, mk: impl FnOnce() -> Value) {
+        match self.notes.get(cat) {
+            Some((k, _)) if *k <= key => {}
+            _ => {
+                self.notes.insert(cat, (key, mk()));
+            }
+        }
+    }
+    fn merge(mut self, o: Acc) -> Acc {
+        for i in 0..self.c.len() {
+            self.c[i] += o.c[i];
+        }
+        self.gap_cl = self.gap_cl.min(o.gap_cl);
+        self.gap_cc = self.gap_cc.min(o.gap_cc);
+        self.gap_pos_rel = self.gap_pos_rel.min(o.gap_pos_rel);
+        self.gap_contains = self.gap_contains.min(o.gap_contains);
+        self.gap_parallel = self.gap_parallel.min(o.gap_parallel);
+        self.max_dev = self.max_dev.max(o.max_dev);
+        for (f, n) in o.fail_counts {
+            *self.fail_counts.entry(f).or_insert(0) += n;
+        }
+        for (f, (k, v)) in o.fails {
+            match self.fails.get(f) {
+                Some((k0, _)) if *k0 <= k => {}
+                _ => {
+                    self.fails.insert(f, (k, v));
+                }
+            }
+        }
+        for (f, (k, v)) in o.notes {
+            match self.notes.get(f) {
+                Some((k0, _)) if *k0 <= k => {}
+                _ => {
+                    self.notes.insert(f, (k, v));
+                }
+            }
+        }
+        self
+    }
+}
+
+// ------------------------------------------------------------------------------------------------
+// small f64 helpers for the oracle (image plane)
+// ------------------------------------------------------------------------------------------------
+
+fn d2(ax: f64, ay: f64, bx: f64, by: f64) -> f64 {
+    ((ax - bx) * (ax - bx) + (ay - by) * (ay - by)).sqrt()
+}
+
+/// | |p - c| - r |
+fn off_circle(p: &Point, c: &Point, r: f64) -> f64 {
+    (d2(p.x, p.y, c.x, c.y) - r).abs()
+}
+
+/// distance of p from the line through the two DEFINING points (never the library's normalised line)
+fn off_line(p: &Point, a: &Point, b: &Point) -> f64 {
+    let (dx, dy) = (b.x - a.x, b.y - a.y);
+    ((dx * (p.y - a.y) - dy * (p.x - a.x)) / (dx * dx + dy * dy).sqrt()).abs()
+}
+
+/// `x <= TOL`, false for NaN
+fn within(x: f64) -> bool {
+    x <= TOL
+}
+
+/// deviation of {a1,a2} from {e1,e2} as sets: min over the two pairings of the larger distance
+fn set_dev(a1: &Point, a2: &Point, e1: (f64, f64), e2: (f64, f64)) -> f64 {
+    let m = |u: f64, v: f64| if u.is_nan() || v.is_nan() { f64::NAN } else { u.max(v) };
+    let s = m(d2(a1.x, a1.y, e1.0, e1.1), d2(a2.x, a2.y, e2.0, e2.1));
+    let t = m(d2(a1.x, a1.y, e2.0, e2.1), d2(a2.x, a2.y, e1.0, e1.1));
+    if s.is_nan() || t.is_nan() {
+        f64::NAN
+    } else {
+        s.min(t)
+    }
+}
+
+fn pj(p: &Point) -> Value {
+    json!([p.x, p.y])
+}
+fn ps(p: &Point) -> String {
+    format!("({:?},{:?})", p.x, p.y)
+}
+fn ip(p: IP) -> String {
+    format!("({},{})", p.0, p.1)
+}
+
+// ------------------------------------------------------------------------------------------------
+// circle–line
+// ------------------------------------------------------------------------------------------------
+
+#[derive(Clone, Copy, PartialEq, Debug)]
+enum ClKind {
+    None,
+    Touch,
+    Intersect,
+}
+
+struct ClCase {
+    tf: Tf,
+    c: IP,
+    r: i64,
+    p1: IP,
+    p2: IP,
+}
+
+impl ClCase {
+    fn sig(&self) -> String {
+        format!("tf={};c={};r={};l={}>{}", self.tf.tag(), ip(self.c), self.r, ip(self.p1), ip(self.p2))
+    }
+    fn replay(&self, fam: &str) -> Value {
+        json!({"case": "cl", "family": fam, "tf": self.tf.json(), "c": [self.c.0, self.c.1], "r": self.r,
+               "p1": [self.p1.0, self.p1.1], "p2": [self.p2.0, self.p2.1]})
+    }
+}
+
+fn cl_obs_string(r: &Result<CircleLineIntersection, String>) -> String {
+    match r {
+        Err(e) => format!("panic: {e}"),
+        Ok(CircleLineIntersection::None) => "None".into(),
+        Ok(CircleLineIntersection::Touch(p)) => format!("Touch{}", ps(p)),
+        Ok(CircleLineIntersection::Intersect(p, q)) => format!("Intersect{}{}", ps(p), ps(q)),
+    }
+}
+
+/// One circle–line configuration against the real `intersect_cl`.
+fn check_cl(acc: &mut Acc, key: Key, k: &ClCase, fc: &Point, fp1: &Point, fp2: &Point, fl: &Line) {
+    let (dx, dy) = ((k.p2.0 - k.p1.0) as i128, (k.p2.1 - k.p1.1) as i128);
+    let (ex, ey) = ((k.c.0 - k.p1.0) as i128, (k.c.1 - k.p1.1) as i128);
+    let l = dx * dx + dy * dy;
+    let cross = dx * ey - dy * ex;
+    let dot = dx * ex + dy * ey;
+    let r = k.r as i128;
+    let disc = r * r * l - cross * cross; // > 0 two points, == 0 tangent, < 0 none
+    let exact = if disc > 0 {
+        ClKind::Intersect
+    } else if disc == 0 {
+        ClKind::Touch
+    } else {
+        ClKind::None
+    };
+    if k.tf.is_id() && disc != 0 {
+        let g = ((cross.abs() as f64) / (l as f64).sqrt() - r as f64).abs();
+        acc.gap_cl = acc.gap_cl.min(g);
+    }
+    let non_axis = dx != 0 && dy != 0;
+    match exact {
+        ClKind::None => acc.inc(C::ClNone),
+        ClKind::Touch => {
+            acc.inc(C::ClTouch);
+            acc.inc(C::Nontrivial);
+            if non_axis {
+                acc.inc(C::ClTouchNonAxis);
+            }
+        }
+        ClKind::Intersect => {
+            acc.inc(C::ClIntersect);
+            acc.inc(C::Nontrivial);
+        }
+    }
+
+    let circle = Circle::new(*fc, k.tf.rad(k.r));
+    let res = catch(|| util::intersect_cl(&circle, fl));
+    acc.inc(C::Evals);
+
+    // reference points (pre-image plane, then mapped)
+    let lf = l as f64;
+    let t = dot as f64 / lf;
+    let (fx, fy) = (k.p1.0 as f64 + dx as f64 * t, k.p1.1 as f64 + dy as f64 * t);
+    let hh = if disc > 0 { (disc as f64 / lf).sqrt() } else { 0.0 };
+    let (ux, uy) = (dx as f64 / lf.sqrt(), dy as f64 / lf.sqrt());
+    let e1 = k.tf.ptf(fx + ux * hh, fy + uy * hh);
+    let e2 = k.tf.ptf(fx - ux * hh, fy - uy * hh);
+
+    let obs_kind = match &res {
+        Err(_) => {
+            let s = cl_obs_string(&res);
+            acc.fail("cl_panic", key, || {
+                Violation::new(format!("cl_panic:{}", k.sig()), format!("intersect_cl panicked on circle {} r={} line {}>{} [{}]: {s}", ip(k.c), k.r, ip(k.p1), ip(k.p2), k.tf.tag()), k.replay("cl_panic"))
+            });
+            return;
+        }
+        Ok(CircleLineIntersection::None) => ClKind::None,
+        Ok(CircleLineIntersection::Touch(_)) => ClKind::Touch,
+        Ok(CircleLineIntersection::Intersect(..)) => ClKind::Intersect,
+    };
+    match obs_kind {
+        ClKind::Touch => acc.inc(C::ObsClTouch),
+        ClKind::Intersect => acc.inc(C::ObsClIntersect),
+        ClKind::None => {}
+    }
+    if obs_kind != exact {
+        let s = cl_obs_string(&res);
+        acc.fail("cl_kind", key, || {
+            Violation::new(
+                format!("cl_kind:{}", k.sig()),
+                format!("intersect_cl kind: circle centre {} r={} and the line through {} and {} (transform {}): exact class {:?} (cross^2 - r^2*L = {}), library returned {s}", ip(k.c), k.r, ip(k.p1), ip(k.p2), k.tf.tag(), exact, -disc),
+                k.replay("cl_kind"),
+            )
+        });
+    }
+    match res.as_ref().unwrap() {
+        CircleLineIntersection::None => {}
+        CircleLineIntersection::Touch(p) => {
+            let oc = off_circle(p, fc, circle.r);
+            let ol = off_line(p, fp1, fp2);
+            let dev = if exact == ClKind::Touch { d2(p.x, p.y, e1.0, e1.1) } else { 0.0 };
+            if within(dev) {
+                acc.max_dev = acc.max_dev.max(dev);
+            }
+            if !(within(oc) && within(ol) && within(dev)) {
+                acc.fail("cl_touch_point", key, || {
+                    Violation::new(
+                        format!("cl_touch_point:{}", k.sig()),
+                        format!(
+                            "intersect_cl tangent point: circle centre {} r={} and the line through {} and {} (transform {}; fed centre {} r={:?}, line points {} {}): exact tangent point {:?}, library returned Touch{} — off the circle by {:?}, off the line by {:?} (tolerance 1e-7)",
+                            ip(k.c), k.r, ip(k.p1), ip(k.p2), k.tf.tag(), ps(fc), circle.r, ps(fp1), ps(fp2), e1, ps(p), oc, ol
+                        ),
+                        k.replay("cl_touch_point"),
+                    )
+                });
+            }
+            if exact == ClKind::Touch && non_axis {
+                acc.note(if k.tf.is_id() { "cl_touch_non_axis_lattice1" } else { "cl_touch_non_axis_lattice2" }, key, || {
+                    json!({"call": "intersect_cl", "transform": k.tf.tag(), "centre": [k.c.0, k.c.1], "r": k.r, "line_through": [[k.p1.0, k.p1.1], [k.p2.0, k.p2.1]],
+                           "fed_centre": pj(fc), "fed_r": circle.r, "exact": "Touch", "exact_point": [e1.0, e1.1], "observed": format!("Touch{}", ps(p)), "off_circle": oc, "off_line": ol})
+                });
+            }
+        }
+        CircleLineIntersection::Intersect(p, q) => {
+            let worst = [off_circle(p, fc, circle.r), off_line(p, fp1, fp2), off_circle(q, fc, circle.r), off_line(q, fp1, fp2)];
+            if !worst.iter().all(|w| within(*w)) {
+                acc.fail("cl_point_on_both", key, || {
+                    Violation::new(
+                        format!("cl_point_on_both:{}", k.sig()),
+                        format!(
+                            "intersect_cl points: circle centre {} r={} and the line through {} and {} (transform {}): library returned Intersect{}{}; distances (p off circle, p off line, q off circle, q off line) = {:?} exceed 1e-7",
+                            ip(k.c), k.r, ip(k.p1), ip(k.p2), k.tf.tag(), ps(p), ps(q), worst
+                        ),
+                        k.replay("cl_point_on_both"),
+                    )
+                });
+            }
+            if exact == ClKind::Intersect {
+                let dev = set_dev(p, q, e1, e2);
+                let apart = d2(p.x, p.y, q.x, q.y);
+                if within(dev) {
+                    acc.max_dev = acc.max_dev.max(dev);
+                }
+                if !(within(dev) && apart > TOL) {
+                    acc.fail("cl_points_match", key, || {
+                        Violation::new(
+                            format!("cl_points_match:{}", k.sig()),
+                            format!(
+                                "intersect_cl points: circle centre {} r={} and the line through {} and {} (transform {}): exact intersection points {:?} and {:?}, library returned Intersect{}{} (set deviation {:?}, mutual distance {:?})",
+                                ip(k.c), k.r, ip(k.p1), ip(k.p2), k.tf.tag(), e1, e2, ps(p), ps(q), dev, apart
+                            ),
+                            k.replay("cl_points_match"),
+                        )
+                    });
+                }
+                if non_axis {
+                    acc.note(if k.tf.is_id() { "cl_intersect_lattice1" } else { "cl_intersect_lattice2" }, key, || {
+                        json!({"call": "intersect_cl", "transform": k.tf.tag(), "centre": [k.c.0, k.c.1], "r": k.r, "line_through": [[k.p1.0, k.p1.1], [k.p2.0, k.p2.1]],
+                               "exact": "Intersect", "exact_points": [[e1.0, e1.1], [e2.0, e2.1]], "observed": format!("Intersect{}{}", ps(p), ps(q)), "set_deviation": dev})
+                    });
+                }
+            }
+        }
+    }
+}
+
+// ------------------------------------------------------------------------------------------------
+// circle–circle
+// ------------------------------------------------------------------------------------------------
+
+#[derive(Clone, Copy, PartialEq, Debug)]
+enum CcKind {
+    None,
+    Same,
+    TouchInside,
+    TouchOutside,
+    Intersect,
+}
+
+struct CcCase {
+    tf: Tf,
+    a: IP,
+    ra: i64,
+    b: IP,
+    rb: i64,
+}
+
+impl CcCase {
+    fn sig(&self) -> String {
+        format!("tf={};a={};ra={};b={};rb={}", self.tf.tag(), ip(self.a), self.ra, ip(self.b), self.rb)
+    }
+    fn replay(&self, fam: &str) -> Value {
+        json!({"case": "cc", "family": fam, "tf": self.tf.json(), "a": [self.a.0, self.a.1], "ra": self.ra, "b": [self.b.0, self.b.1], "rb": self.rb})
+    }
+    fn text(&self) -> String {
+        format!("circles centre {} r={} and centre {} r={} (transform {})", ip(self.a), self.ra, ip(self.b), self.rb, self.tf.tag())
+    }
+}
+
+fn cc_kind_of(r: &CircleIntersection) -> CcKind {
+    match r {
+        CircleIntersection::None => CcKind::None,
+        CircleIntersection::Same => CcKind::Same,
+        CircleIntersection::TouchInside(_) => CcKind::TouchInside,
+        CircleIntersection::TouchOutside(_) => CcKind::TouchOutside,
+        CircleIntersection::Intersect(..) => CcKind::Intersect,
+    }
+}
+
+fn cc_points(r: &CircleIntersection) -> Vec<Point> {
+    match r {
+        CircleIntersection::None | CircleIntersection::Same => vec![],
+        CircleIntersection::TouchInside(p) | CircleIntersection::TouchOutside(p) => vec![*p],
+        CircleIntersection::Intersect(p, q) => vec![*p, *q],
+    }
+}
+
+fn cc_obs_string(r: &Result<CircleIntersection, String>) -> String {
+    match r {
+        Err(e) => format!("panic: {e}"),
+        Ok(v) => {
+            let pts: String = cc_points(v).iter().map(ps).collect();
+            format!("{:?}{}", cc_kind_of(v), pts)
+        }
+    }
+}
+
+/// One ordered pair of circles against the real `intersect_cc`, in both argument orders.
+fn check_cc(acc: &mut Acc, key: Key, k: &CcCase, fa: &Point, fb: &Point) {
+    let (dx, dy) = ((k.b.0 - k.a.0) as i128, (k.b.1 - k.a.1) as i128);
+    let dd = dx * dx + dy * dy;
+    let (ra, rb) = (k.ra as i128, k.rb as i128);
+    let sum2 = (ra + rb) * (ra + rb);
+    let dif2 = (ra - rb) * (ra - rb);
+    let (exact, inside_none) = if dd == 0 && ra == rb {
+        (CcKind::Same, false)
+    } else if dd > sum2 {
+        (CcKind::None, false)
+    } else if dd == sum2 {
+        (CcKind::TouchOutside, false)
+    } else if dd < dif2 {
+        (CcKind::None, true)
+    } else if dd == dif2 {
+        (CcKind::TouchInside, false)
+    } else {
+        (CcKind::Intersect, false)
+    };
+    if k.tf.is_id() {
+        let d = (dd as f64).sqrt();
+        for g in [(d - (ra + rb) as f64).abs(), (d - (ra - rb).abs() as f64).abs()] {
+            if g != 0.0 {
+                acc.gap_cc = acc.gap_cc.min(g);
+            }
+        }
+        if dd != 0 {
+            acc.gap_cc = acc.gap_cc.min(d); // "Same" needs d < EPS
+        }
+        if ra != rb {
+            acc.gap_cc = acc.gap_cc.min((ra - rb).abs() as f64);
+        }
+    }
+    let non_axis = dx != 0 && dy != 0;
+    match exact {
+        CcKind::None => acc.inc(if inside_none { C::CcNoneInside } else { C::CcNoneOutside }),
+        CcKind::Same => acc.inc(C::CcSame),
+        CcKind::TouchInside => {
+            acc.inc(C::CcTouchInside);
+            if non_axis {
+                acc.inc(C::CcTouchInsideNonAxis);
+            }
+        }
+        CcKind::TouchOutside => {
+            acc.inc(C::CcTouchOutside);
+            if non_axis {
+                acc.inc(C::CcTouchOutsideNonAxis);
+            }
+        }
+        CcKind::Intersect => acc.inc(C::CcIntersect),
+    }
+    if exact != CcKind::None {
+        acc.inc(C::Nontrivial);
+    }
+
+    let ca = Circle::new(*fa, k.tf.rad(k.ra));
+    let cb = Circle::new(*fb, k.tf.rad(k.rb));
+    let res_ab = catch(|| util::intersect_cc(&ca, &cb));
+    let res_ba = catch(|| util::intersect_cc(&cb, &ca));
+    acc.inc(C::Evals);
+    acc.inc(C::Evals);
+
+    // reference points
+    let (e1, e2) = if dd != 0 {
+        let ddf = dd as f64;
+        let w = dd + ra * ra - rb * rb;
+        let kk = w as f64 / (2.0 * ddf);
+        let (mx, my) = (k.a.0 as f64 + dx as f64 * kk, k.a.1 as f64 + dy as f64 * kk);
+        let under = 4 * dd * ra * ra - w * w;
+        let hh = if under > 0 { (under as f64).sqrt() / (2.0 * ddf) } else { 0.0 };
+        (k.tf.ptf(mx - dy as f64 * hh, my + dx as f64 * hh), k.tf.ptf(mx + dy as f64 * hh, my - dx as f64 * hh))
+    } else {
+        ((f64::NAN, f64::NAN), (f64::NAN, f64::NAN))
+    };
+
+    let mut oks: Vec<CircleIntersection> = vec![];
+    for (which, res) in [("(a,b)", &res_ab), ("(b,a)", &res_ba)] {
+        let v = match res {
+            Err(_) => {
+                let s = cc_obs_string(res);
+                acc.fail("cc_panic", key, || Violation::new(format!("cc_panic:{}", k.sig()), format!("intersect_cc{which} panicked on {}: {s}", k.text()), k.replay("cc_panic")));
+                continue;
+            }
+            Ok(v) => *v,
+        };
+        oks.push(v);
+        let ok = cc_kind_of(&v);
+        if which == "(a,b)" {
+            match ok {
+                CcKind::TouchInside => acc.inc(C::ObsCcTouchInside),
+                CcKind::TouchOutside => acc.inc(C::ObsCcTouchOutside),
+                CcKind::Intersect => acc.inc(C::ObsCcIntersect),
+                CcKind::Same => acc.inc(C::ObsCcSame),
+                CcKind::None => {}
+            }
+        }
+        if ok != exact {
+            let s = cc_obs_string(res);
+            acc.fail("cc_kind", key, || {
+                Violation::new(
+                    format!("cc_kind:{}", k.sig()),
+                    format!("intersect_cc{which} kind: {}: exact class {:?} (d^2={}, (ra+rb)^2={}, (ra-rb)^2={}), library returned {s}", k.text(), exact, dd, sum2, dif2),
+                    k.replay("cc_kind"),
+                )
+            });
+        }
+        let pts = cc_points(&v);
+        let offs: Vec<f64> = pts.iter().flat_map(|p| [off_circle(p, fa, ca.r), off_circle(p, fb, cb.r)]).collect();
+        if !offs.iter().all(|w| within(*w)) {
+            let s = cc_obs_string(res);
+            acc.fail("cc_point_on_both", key, || {
+                Violation::new(
+                    format!("cc_point_on_both:{}", k.sig()),
+                    format!("intersect_cc{which} points: {} (fed centres {} {} radii {:?} {:?}): library returned {s}; per point (off circle a, off circle b) = {:?} exceed 1e-7", k.text(), ps(fa), ps(fb), ca.r, cb.r, offs),
+                    k.replay("cc_point_on_both"),
+                )
+            });
+        }
+        if ok == exact && !pts.is_empty() {
+            let (dev, apart) = if pts.len() == 1 { (d2(pts[0].x, pts[0].y, e1.0, e1.1), f64::INFINITY) } else { (set_dev(&pts[0], &pts[1], e1, e2), d2(pts[0].x, pts[0].y, pts[1].x, pts[1].y)) };
+            if within(dev) {
+                acc.max_dev = acc.max_dev.max(dev);
+            }
+            if !(within(dev) && apart > TOL) {
+                let s = cc_obs_string(res);
+                acc.fail("cc_points_match", key, || {
+                    Violation::new(
+                        format!("cc_points_match:{}", k.sig()),
+                        format!("intersect_cc{which} points: {}: exact {:?} at {:?}{}, library returned {s} (deviation {:?})", k.text(), exact, e1, if pts.len() == 2 { format!(" and {:?}", e2) } else { String::new() }, dev),
+                        k.replay("cc_points_match"),
+                    )
+                });
+            }
+        }
+    }
+    if oks.len() == 2 {
+        let (u, v) = (&oks[0], &oks[1]);
+        let (pu, pv) = (cc_points(u), cc_points(v));
+        let agree = cc_kind_of(u) == cc_kind_of(v)
+            && pu.len() == pv.len()
+            && match pu.len() {
+                0 => true,
+                1 => within(d2(pu[0].x, pu[0].y, pv[0].x, pv[0].y)),
+                _ => within(set_dev(&pu[0], &pu[1], (pv[0].x, pv[0].y), (pv[1].x, pv[1].y))),
+            };
+        if !agree {
+            let (s, t) = (cc_obs_string(&res_ab), cc_obs_string(&res_ba));
+            acc.fail("cc_symmetry", key, || Violation::new(format!("cc_symmetry:{}", k.sig()), format!("intersect_cc argument order: {}: (a,b) gives {s}, (b,a) gives {t}", k.text()), k.replay("cc_symmetry")));
+        }
+        if non_axis && exact != CcKind::None {
+            let cat = match (exact, k.tf.is_id()) {
+                (CcKind::TouchInside, true) => "cc_touch_inside_non_axis_lattice1",
+                (CcKind::TouchInside, false) => "cc_touch_inside_non_axis_lattice2",
+                (CcKind::TouchOutside, true) => "cc_touch_outside_non_axis_lattice1",
+                (CcKind::TouchOutside, false) => "cc_touch_outside_non_axis_lattice2",
+                (_, true) => "cc_intersect_lattice1",
+                (_, false) => "cc_intersect_lattice2",
+            };
+            acc.note(cat, key, || {
+                json!({"call": "intersect_cc", "transform": k.tf.tag(), "a": [k.a.0, k.a.1], "ra": k.ra, "b": [k.b.0, k.b.1], "rb": k.rb, "exact": format!("{:?}", exact),
+                       "exact_points": if exact == CcKind::Intersect { json!([[e1.0, e1.1], [e2.0, e2.1]]) } else { json!([[e1.0, e1.1]]) },
+                       "observed_ab": cc_obs_string(&res_ab), "observed_ba": cc_obs_string(&res_ba)})
+            });
+        }
+    }
+}
+
+// ------------------------------------------------------------------------------------------------
+// line–line, parallel
+// ------------------------------------------------------------------------------------------------
+
+struct LlCase {
+    tf: Tf,
+    p1: IP,
+    p2: IP,
+    q1: IP,
+    q2: IP,
+}
+
+impl LlCase {
+    fn sig(&self) -> String {
+        format!("tf={};l={}>{};m={}>{}", self.tf.tag(), ip(self.p1), ip(self.p2), ip(self.q1), ip(self.q2))
+    }
+    fn replay(&self, fam: &str) -> Value {
+        json!({"case": "ll", "family": fam, "tf": self.tf.json(), "p1": [self.p1.0, self.p1.1], "p2": [self.p2.0, self.p2.1], "q1": [self.q1.0, self.q1.1], "q2": [self.q2.0, self.q2.1]})
+    }
+    fn text(&self) -> String {
+        format!("line through {} and {} with line through {} and {} (transform {})", ip(self.p1), ip(self.p2), ip(self.q1), ip(self.q2), self.tf.tag())
+    }
+}
+
+#[allow(clippy::too_many_arguments)]
+fn check_ll(acc: &mut Acc, key: Key, k: &LlCase, fp1: &Point, fp2: &Point, fq1: &Point, fq2: &Point, lu: &Line, lv: &Line) {
+    let (d1x, d1y) = ((k.p2.0 - k.p1.0) as i128, (k.p2.1 - k.p1.1) as i128);
+    let (d2x, d2y) = ((k.q2.0 - k.q1.0) as i128, (k.q2.1 - k.q1.1) as i128);
+    let den = d1x * d2y - d1y * d2x;
+    let par_exact = den == 0;
+    if k.tf.is_id() && !par_exact {
+        let g = den.abs() as f64 / (((d1x * d1x + d1y * d1y) as f64).sqrt() * ((d2x * d2x + d2y * d2y) as f64).sqrt());
+        acc.gap_parallel = acc.gap_parallel.min(g);
+    }
+    if par_exact {
+        acc.inc(C::LlParallel);
+    } else {
+        acc.inc(C::LlPoint);
+        acc.inc(C::Nontrivial);
+    }
+    let par_obs = catch(|| util::parallel(lu, lv));
+    let res = catch(|| util::intersect_ll(lu, lv));
+    acc.inc(C::Evals);
+    acc.inc(C::Evals);
+    match &par_obs {
+        Ok(b) if *b == par_exact => {}
+        other => {
+            let s = format!("{:?}", other);
+            acc.fail("parallel", key, || Violation::new(format!("parallel:{}", k.sig()), format!("parallel: {}: exact cross product of directions = {den}, so parallel = {par_exact}; library returned {s}", k.text()), k.replay("parallel")));
+        }
+    }
+    let res = match res {
+        Err(e) => {
+            acc.fail("ll_panic", key, || Violation::new(format!("ll_panic:{}", k.sig()), format!("intersect_ll panicked on {}: {e}", k.text()), k.replay("ll_panic")));
+            return;
+        }
+        Ok(r) => r,
+    };
+    if res.is_some() {
+        acc.inc(C::ObsLlSome);
+    }
+    if res.is_some() == par_exact {
+        let s = format!("{:?}", res);
+        acc.fail("ll_kind", key, || {
+            Violation::new(format!("ll_kind:{}", k.sig()), format!("intersect_ll kind: {}: exact cross product of directions = {den} ({}), library returned {s}", k.text(), if par_exact { "parallel: no unique point" } else { "unique point" }), k.replay("ll_kind"))
+        });
+    }
+    if let Some(p) = res {
+        // exact point (if unique)
+        let e = if !par_exact {
+            let num = (k.q1.0 - k.p1.0) as i128 * d2y - (k.q1.1 - k.p1.1) as i128 * d2x;
+            let t = num as f64 / den as f64;
+            Some(k.tf.ptf(k.p1.0 as f64 + d1x as f64 * t, k.p1.1 as f64 + d1y as f64 * t))
+        } else {
+            None
+        };
+        if let Some(e) = e {
+            if !(e.0.abs() <= COORD_LIMIT && e.1.abs() <= COORD_LIMIT) {
+                // the accuracy clause is stated for coordinates up to 1e3 only
+                acc.inc(C::LlPointFar);
+                acc.inc(C::SkippedOutOfDomain);
+                return;
+            }
+        } else if !(p.x.abs() <= COORD_LIMIT && p.y.abs() <= COORD_LIMIT) {
+            acc.inc(C::SkippedOutOfDomain);
+            return;
+        }
+        let (o1, o2) = (off_line(&p, fp1, fp2), off_line(&p, fq1, fq2));
+        let dev = e.map(|e| d2(p.x, p.y, e.0, e.1)).unwrap_or(0.0);
+        if within(dev) {
+            acc.max_dev = acc.max_dev.max(dev);
+        }
+        if !(within(o1) && within(o2) && within(dev)) {
+            acc.fail("ll_point", key, || {
+                Violation::new(format!("ll_point:{}", k.sig()), format!("intersect_ll point: {}: exact point {:?}, library returned {}: off first line by {:?}, off second line by {:?}, from exact point {:?} (tolerance 1e-7)", k.text(), e, ps(&p), o1, o2, dev), k.replay("ll_point"))
+            });
+        }
+        if d1x != 0 && d1y != 0 && d2x != 0 && d2y != 0 {
+            acc.note(if k.tf.is_id() { "ll_point_lattice1" } else { "ll_point_lattice2" }, key, || {
+                json!({"call": "intersect_ll", "transform": k.tf.tag(), "l": [[k.p1.0, k.p1.1], [k.p2.0, k.p2.1]], "m": [[k.q1.0, k.q1.1], [k.q2.0, k.q2.1]], "exact_point": e.map(|e| vec![e.0, e.1]), "observed": ps(&p), "off_l": o1, "off_m": o2})
+            });
+        }
+    }
+}
+
+// ------------------------------------------------------------------------------------------------
+// Circle::position, Line::contains
+// ------------------------------------------------------------------------------------------------
+
+struct PosCase {
+    tf: Tf,
+    c: IP,
+    r: i64,
+    p: IP,
+}
+
+impl PosCase {
+    fn sig(&self) -> String {
+        format!("tf={};c={};r={};p={}", self.tf.tag(), ip(self.c), self.r, ip(self.p))
+    }
+    fn replay(&self) -> Value {
+        json!({"case": "pos", "family": "position", "tf": self.tf.json(), "c": [self.c.0, self.c.1], "r": self.r, "p": [self.p.0, self.p.1]})
+    }
+}
+
+fn check_pos(acc: &mut Acc, key: Key, k: &PosCase, fc: &Point, fp: &Point) {
+    let (dx, dy) = ((k.p.0 - k.c.0) as i128, (k.p.1 - k.c.1) as i128);
+    let dd = dx * dx + dy * dy;
+    let rr = (k.r as i128) * (k.r as i128);
+    let exact = if dd < rr {
+        PointPosition::Inside
+    } else if dd == rr {
+        PointPosition::Border
+    } else {
+        PointPosition::Outside
+    };
+    match exact {
+        PointPosition::Inside => acc.inc(C::PosInside),
+        PointPosition::Border => {
+            acc.inc(C::PosBorder);
+            if dx != 0 && dy != 0 {
+                acc.inc(C::PosBorderOffAxis);
+            }
+        }
+        PointPosition::Outside => acc.inc(C::PosOutside),
+    }
+    if k.tf.is_id() && dd != rr {
+        acc.gap_pos_rel = acc.gap_pos_rel.min(((dd as f64).sqrt() - k.r as f64).abs() / k.r as f64);
+    }
+    let circle = Circle::new(*fc, k.tf.rad(k.r));
+    let res = catch(|| circle.position(fp));
+    acc.inc(C::Evals);
+    if res.as_ref().ok() != Some(&exact) {
+        let s = format!("{:?}", res);
+        acc.fail("position", key, || {
+            Violation::new(format!("position:{}", k.sig()), format!("Circle::position: centre {} r={} point {} (transform {}): exact d^2={} vs r^2={} so {:?}; library returned {s}", ip(k.c), k.r, ip(k.p), k.tf.tag(), dd, rr, exact), k.replay())
+        });
+    }
+}
+
+struct ConCase {
+    tf: Tf,
+    p1: IP,
+    p2: IP,
+    q: IP,
+}
+
+impl ConCase {
+    fn sig(&self) -> String {
+        format!("tf={};l={}>{};p={}", self.tf.tag(), ip(self.p1), ip(self.p2), ip(self.q))
+    }
+    fn replay(&self) -> Value {
+        json!({"case": "contains", "family": "contains", "tf": self.tf.json(), "p1": [self.p1.0, self.p1.1], "p2": [self.p2.0, self.p2.1], "q": [self.q.0, self.q.1]})
+    }
+}
+
+fn check_contains(acc: &mut Acc, key: Key, k: &ConCase, fl: &Line, fq: &Point) {
+    let (dx, dy) = ((k.p2.0 - k.p1.0) as i128, (k.p2.1 - k.p1.1) as i128);
+    let cross = dx * (k.q.1 - k.p1.1) as i128 - dy * (k.q.0 - k.p1.0) as i128;
+    let exact = cross == 0;
+    acc.inc(if exact { C::ContainsOn } else { C::ContainsOff });
+    if k.tf.is_id() && !exact {
+        acc.gap_contains = acc.gap_contains.min(cross.abs() as f64 / ((dx * dx + dy * dy) as f64).sqrt());
+    }
+    let res = catch(|| fl.contains(fq));
+    acc.inc(C::Evals);
+    if res.as_ref().ok() != Some(&exact) {
+        let s = format!("{:?}", res);
+        acc.fail("contains", key, || {
+            Violation::new(format!("contains:{}", k.sig()), format!("Line::contains: line through {} and {} and point {} (transform {}): exact cross product {cross}, so on the line = {exact}; library returned {s} (line a,b,c = {:?},{:?},{:?})", ip(k.p1), ip(k.p2), ip(k.q), k.tf.tag(), fl.a, fl.b, fl.c), k.replay())
+        });
+    }
+}
+
+// ------------------------------------------------------------------------------------------------
+// a lattice under one transform
+// ------------------------------------------------------------------------------------------------
+
+struct World {
+    tf: Tf,
+    tfi: u64,
+    pts: Vec<IP>,
+    fpts: Vec<Point>,
+    lines: Vec<(u32, u32)>,
+    flines: Vec<Line>,
+    rmax: i64,
+}
+
+/// lattice points of [-n,n]^2, simplest first
+fn lattice(n: i64) -> Vec<IP> {
+    let mut v: Vec<IP> = (-n..=n).flat_map(|x| (-n..=n).map(move |y| (x, y))).collect();
+    v.sort_by_key(|&(x, y)| (x * x + y * y, x.abs() + y.abs(), x < 0, y < 0, x.abs(), y.abs()));
+    v
+}
+
+fn make_line(a: &Point, b: &Point) -> Result<Line, String> {
+    catch(|| Line::between(a, b))
+}
+
+impl World {
+    fn new(tf: Tf, tfi: u64, n: i64, rmax: i64, acc: &mut Acc) -> World {
+        let pts = lattice(n);
+        let fpts: Vec<Point> = pts.iter().map(|&p| tf.pt(p)).collect();
+        let mut lines = vec![];
+        let mut flines = vec![];
+        for i in 0..pts.len() {
+            for j in 0..pts.len() {
+                if i != j {
+                    lines.push((i as u32, j as u32));
+                    match make_line(&fpts[i], &fpts[j]) {
+                        Ok(l) => flines.push(l),
+                        Err(e) => {
+                            let (p1, p2) = (pts[i], pts[j]);
+                            acc.fail("line_between_panic", (tfi, i as u64, j as u64), || {
+                                Violation::new(format!("line_between_panic:tf={};l={}>{}", tf.tag(), ip(p1), ip(p2)), format!("Line::between panicked: {e}"), json!({"case": "between", "family": "line_between_panic", "tf": tf.json(), "p1": [p1.0, p1.1], "p2": [p2.0, p2.1]}))
+                            });
+                            flines.push(Line { a: f64::NAN, b: f64::NAN, c: f64::NAN });
+                        }
+                    }
+                    acc.inc(C::Evals);
+                }
+            }
+        }
+        World { tf, tfi, pts, fpts, lines, flines, rmax }
+    }
+
+    fn run_cl(&self) -> Acc {
+        let nc = self.pts.len() * self.rmax as usize;
+        (0..nc)
+            .into_par_iter()
+            .map(|ci| {
+                let mut acc = Acc::new();
+                let (pi, r) = (ci / self.rmax as usize, (ci % self.rmax as usize) as i64 + 1);
+                for (li, &(i, j)) in self.lines.iter().enumerate() {
+                    let k = ClCase { tf: self.tf, c: self.pts[pi], r, p1: self.pts[i as usize], p2: self.pts[j as usize] };
+                    check_cl(&mut acc, (self.tfi, ci as u64, li as u64), &k, &self.fpts[pi], &self.fpts[i as usize], &self.fpts[j as usize], &self.flines[li]);
+                }
+                acc
+            })
+            .reduce(Acc::new, Acc::merge)
+    }
+
+    fn run_cc(&self) -> Acc {
+        let nc = self.pts.len() * self.rmax as usize;
+        (0..nc)
+            .into_par_iter()
+            .map(|ai| {
+                let mut acc = Acc::new();
+                let (pa, ra) = (ai / self.rmax as usize, (ai % self.rmax as usize) as i64 + 1);
+                for bi in 0..nc {
+                    let (pb, rb) = (bi / self.rmax as usize, (bi % self.rmax as usize) as i64 + 1);
+                    let k = CcCase { tf: self.tf, a: self.pts[pa], ra, b: self.pts[pb], rb };
+                    check_cc(&mut acc, (self.tfi, ai as u64, bi as u64), &k, &self.fpts[pa], &self.fpts[pb]);
+                }
+                acc
+            })
+            .reduce(Acc::new, Acc::merge)
+    }
+
+    /// first line: every ordered pair; second line: every ordered pair whose index is a multiple of `stride`
+    fn run_ll(&self, stride: usize) -> Acc {
+        (0..self.lines.len())
+            .into_par_iter()
+            .map(|ui| {
+                let mut acc = Acc::new();
+                let (i, j) = self.lines[ui];
+                let mut vi = 0;
+                while vi < self.lines.len() {
+                    let (m, n) = self.lines[vi];
+                    let k = LlCase { tf: self.tf, p1: self.pts[i as usize], p2: self.pts[j as usize], q1: self.pts[m as usize], q2: self.pts[n as usize] };
+                    check_ll(&mut acc, (self.tfi, ui as u64, vi as u64), &k, &self.fpts[i as usize], &self.fpts[j as usize], &self.fpts[m as usize], &self.fpts[n as usize], &self.flines[ui], &self.flines[vi]);
+                    vi += stride;
+                }
+                acc
+            })
+            .reduce(Acc::new, Acc::merge)
+    }
+
+    fn run_pos(&self) -> Acc {
+        let nc = self.pts.len() * self.rmax as usize;
+        (0..nc)
+            .into_par_iter()
+            .map(|ci| {
+                let mut acc = Acc::new();
+                let (pi, r) = (ci / self.rmax as usize, (ci % self.rmax as usize) as i64 + 1);
+                for qi in 0..self.pts.len() {
+                    let k = PosCase { tf: self.tf, c: self.pts[pi], r, p: self.pts[qi] };
+                    check_pos(&mut acc, (self.tfi, ci as u64, qi as u64), &k, &self.fpts[pi], &self.fpts[qi]);
+                }
+                acc
+            })
+            .reduce(Acc::new, Acc::merge)
+    }
+
+    fn run_contains(&self) -> Acc {
+        (0..self.lines.len())
+            .into_par_iter()
+            .map(|li| {
+                let mut acc = Acc::new();
+                let (i, j) = self.lines[li];
+                for qi in 0..self.pts.len() {
+                    let k = ConCase { tf: self.tf, p1: self.pts[i as usize], p2: self.pts[j as usize], q: self.pts[qi] };
+                    check_contains(&mut acc, (self.tfi, li as u64, qi as u64), &k, &self.flines[li], &self.fpts[qi]);
+                }
+                acc
+            })
+            .reduce(Acc::new, Acc::merge)
+    }
+}
+
+// ------------------------------------------------------------------------------------------------
+// plain re-execution of one recorded case
+// ------------------------------------------------------------------------------------------------
+
+fn confirm(v: &Value) -> Result<(), String> {
+    let tf = Tf::from_json(&v["tf"]);
+    let g = |name: &str| -> IP { (v[name][0].as_i64().unwrap(), v[name][1].as_i64().unwrap()) };
+    let fam = v["family"].as_str().unwrap_or("").to_string();
+    let mut acc = Acc::new();
+    let key = (0, 0, 0);
+    match v["case"].as_str().unwrap_or("") {
+        "cl" => {
+            let k = ClCase { tf, c: g("c"), r: v["r"].as_i64().unwrap(), p1: g("p1"), p2: g("p2") };
+            let (fc, fp1, fp2) = (tf.pt(k.c), tf.pt(k.p1), tf.pt(k.p2));
+            let fl = make_line(&fp1, &fp2).map_err(|e| format!("Line::between panicked: {e}"))?;
+            check_cl(&mut acc, key, &k, &fc, &fp1, &fp2, &fl);
+        }
+        "cc" => {
+            let k = CcCase { tf, a: g("a"), ra: v["ra"].as_i64().unwrap(), b: g("b"), rb: v["rb"].as_i64().unwrap() };
+            check_cc(&mut acc, key, &k, &tf.pt(k.a), &tf.pt(k.b));
+        }
+        "ll" => {
+            let k = LlCase { tf, p1: g("p1"), p2: g("p2"), q1: g("q1"), q2: g("q2") };
+            let (a, b, c, d) = (tf.pt(k.p1), tf.pt(k.p2), tf.pt(k.q1), tf.pt(k.q2));
+            let lu = make_line(&a, &b).map_err(|e| format!("Line::between panicked: {e}"))?;
+            let lv = make_line(&c, &d).map_err(|e| format!("Line::between panicked: {e}"))?;
+            check_ll(&mut acc, key, &k, &a, &b, &c, &d, &lu, &lv);
+        }
+        "pos" => {
+            let k = PosCase { tf, c: g("c"), r: v["r"].as_i64().unwrap(), p: g("p") };
+            check_pos(&mut acc, key, &k, &tf.pt(k.c), &tf.pt(k.p));
+        }
+        "contains" => {
+            let k = ConCase { tf, p1: g("p1"), p2: g("p2"), q: g("q") };
+            let fl = make_line(&tf.pt(k.p1), &tf.pt(k.p2)).map_err(|e| format!("Line::between panicked: {e}"))?;
+            check_contains(&mut acc, key, &k, &fl, &tf.pt(k.q));
+        }
+        "between" => {
+            return match make_line(&tf.pt(g("p1")), &tf.pt(g("p2"))) {
+                Ok(_) => Ok(()),
+                Err(e) => Err(format!("Line::between panicked: {e}")),
+            };
+        }
+        other => return Err(format!("replay file names an unknown case kind {other:?}")),
+    }
+    match acc.fails.iter().find(|(f, _)| **f == fam.as_str()) {
+        Some((_, (_, viol))) => Err(viol.summary.clone()),
+        None => Ok(()),
+    }
+}
+
+// ------------------------------------------------------------------------------------------------
+
+fn main() {
+    let args = Args::parse();
+    quiet_panics();
+    if args.replay.is_some() {
+        Run::replay_main(&args, &confirm);
+    }
+    let mut run = Run::new(&args, "geometry", "exploration");
+    let quick = args.tier == Tier::Quick;
+
+    // ---- bounds -------------------------------------------------------------------------------
+    // lattice 1
+    let n1: i64 = args.tier.pick(4, 6);
+    let r1: i64 = args.tier.pick(6, 8);
+    // lattice 2 (pre-image lattice; the image is rotated, shifted by quarters, scaled)
+    let n2: i64 = args.tier.pick(4, 6);
+    let r2: i64 = args.tier.pick(6, 8);
+    let rotations: [(i64, i64, i64); 3] = [(3, 4, 5), (5, 12, 13), (8, 15, 17)];
+    let shifts: Vec<(i64, i64)> = args.tier.pick(vec![(1, 3), (2, -5)], vec![(1, 3), (2, -5), (-3, 2)]);
+    // second line of a line–line case: every `stride`-th ordered pair (1 = all)
+    let ll_stride1: usize = args.tier.pick(1, 1);
+    let ll_stride2: usize = args.tier.pick(5, 7);
+
+    let mut tfs: Vec<(Tf, i64, i64, usize)> = vec![(Tf::ID, n1, r1, ll_stride1)];
+    let mut scale_notes = vec![];
+    for &(p, q, h) in &rotations {
+        for &(tx, ty) in &shifts {
+            // largest integer scale keeping every fed coordinate AND every point of every circle within 1e3
+            let reach = n2 as f64 * (p + q) as f64 / h as f64 + tx.abs().max(ty.abs()) as f64 / 4.0 + r2 as f64;
+            let smax = (COORD_LIMIT / reach).floor() as i64;
+            let scales: Vec<i64> = if quick { vec![1, smax] } else { vec![1, 7, smax] };
+            for s in scales {
+                tfs.push((Tf { p, q, h, tx, ty, s }, n2, r2, ll_stride2));
+            }
+            scale_notes.push(json!({"rotation": format!("{p}/{h},{q}/{h}"), "shift_quarters": [tx, ty], "max_scale": smax, "max_abs_coordinate_on_circles": reach * smax as f64}));
+        }
+    }
+
+    let mut total = Acc::new();
+    let mut per_tf = vec![];
+    for (idx, (tf, n, rmax, stride)) in tfs.iter().enumerate() {
+        let mut acc = Acc::new();
+        let w = World::new(*tf, idx as u64, *n, *rmax, &mut acc);
+        let t0 = run.elapsed();
+        let mut acc = acc.merge(w.run_cl());
+        acc = acc.merge(w.run_cc());
+        acc = acc.merge(w.run_ll(*stride));
+        acc = acc.merge(w.run_pos());
+        acc = acc.merge(w.run_contains());
+        per_tf.push(json!({"transform": tf.tag(), "lattice_half_width": n, "max_radius": rmax, "lines": w.lines.len(), "ll_second_line_stride": stride,
+                            "evaluations": acc.get(C::Evals), "exact_cl_touch": acc.get(C::ClTouch), "exact_cc_touch_inside": acc.get(C::CcTouchInside),
+                            "exact_cc_touch_outside": acc.get(C::CcTouchOutside), "seconds": ((run.elapsed() - t0) * 100.0).round() / 100.0}));
+        total = total.merge(acc);
+    }
+
+    // ---- evidence -----------------------------------------------------------------------------
+    for (i, name) in CNAMES.iter().enumerate() {
+        run.cov(name, total.c[i]);
+    }
+    run.cov("exhaustive", true);
+    run.cov(
+        "rule",
+        "lattice 1: all integer centres in [-N,N]^2 x radii 1..=R, lines through all ordered pairs of distinct lattice points; circle-line = every circle x every line, circle-circle = every ordered pair of circles (both argument orders called), line-line + parallel = every ordered pair of lines, position = every circle x every lattice point, contains = every line x every lattice point. lattice 2: the same enumeration on [-N2,N2]^2 fed through rotation (3/5,4/5),(5/13,12/13),(8/17,15/17), shift by quarters, integer scale (second line of line-line cases restricted to every ll_second_line_stride-th ordered pair). Classes decided exactly in i128 on the pre-image integers. distinct_nontrivial = enumerated configurations (each a distinct input) whose exact class is a contact: circle-line Touch/Intersect, circle-circle Same/TouchInside/TouchOutside/Intersect, non-parallel line pairs",
+    );
+    run.cov("lattice1", json!({"half_width": n1, "max_radius": r1}));
+    run.cov("lattice2", json!({"half_width": n2, "max_radius": r2, "rotations": ["3/5,4/5", "5/13,12/13", "8/17,15/17"], "shifts_in_quarters": shifts, "scales": scale_notes}));
+    run.cov("per_transform", per_tf);
+    run.cov("point_tolerance", TOL);
+    run.cov("max_accepted_deviation_from_exact_points", total.max_dev);
+    let gaps = [("circle_line_abs", total.gap_cl), ("circle_circle_abs", total.gap_cc), ("position_relative", total.gap_pos_rel), ("contains_abs", total.gap_contains), ("parallel_sine", total.gap_parallel)];
+    let min_gap = gaps.iter().map(|g| g.1).fold(f64::INFINITY, f64::min);
+    run.cov(
+        "min_nonzero_boundary_gap",
+        json!({"overall": min_gap, "circle_line_abs": total.gap_cl, "circle_circle_abs": total.gap_cc, "position_relative": total.gap_pos_rel, "contains_abs": total.gap_contains, "parallel_sine": total.gap_parallel,
+               "note": "measured on the pre-image integers of lattice 1 (lattice 2 is a sub-lattice scaled by >= 1, so its absolute gaps are at least these; relative ones are equal); library EPS = 1e-9, required > 1e-6"}),
+    );
+    let fc: BTreeMap<String, u64> = total.fail_counts.iter().map(|(k, v)| (k.to_string(), *v)).collect();
+    run.cov("failing_cases_per_family", json!(fc));
+    run.assume("tangent / identical / border configurations of lattice 2 are fed as f64 images that differ from the exact configuration by rounding (~1e-13 at magnitude 1e3), far inside the library's own 1e-9 tolerance, so the exact class is still demanded");
+    run.assume("the 1e-7 accuracy clause is applied only where all coordinates involved are <= 1e3 (line-line intersection points beyond that are counted in skipped_out_of_domain; their kind is still checked)");
+
+    // samples: a fixed set of categories; VERIF_SEED only rotates their order
+    let notes: Vec<(&&str, &(Key, Value))> = total.notes.iter().collect();
+    if !notes.is_empty() {
+        let off = (args.seed as usize) % notes.len();
+        for i in 0..notes.len() {
+            let (cat, (_, v)) = notes[(i + off) % notes.len()];
+            run.sample(json!({"category": cat, "case": v}));
+        }
+    }
+
+    // ---- self-checks (machinery) --------------------------------------------------------------
+    for (name, g) in gaps {
+        if !(g > GAP_FLOOR) || !g.is_finite() {
+            run.machinery_failure(&format!("boundary gap {name} = {g:?} is not > 1e-6: the lattice contains configurations inside the excluded tolerance band"));
+        }
+    }
+    let need = [
+        (C::ClTouchNonAxis, "non-axis-aligned circle-line tangencies"),
+        (C::CcTouchInsideNonAxis, "non-axis-aligned inside circle-circle tangencies"),
+        (C::CcTouchOutsideNonAxis, "non-axis-aligned outside circle-circle tangencies"),
+        (C::ClIntersect, "circle-line two-point cases"),
+        (C::ClNone, "circle-line empty cases"),
+        (C::CcSame, "identical circles"),
+        (C::CcNoneInside, "nested disjoint circles"),
+        (C::CcNoneOutside, "separated circles"),
+        (C::CcIntersect, "crossing circles"),
+        (C::LlParallel, "parallel line pairs"),
+        (C::LlPoint, "crossing line pairs"),
+        (C::PosBorderOffAxis, "off-axis border points"),
+        (C::PosInside, "inside points"),
+        (C::PosOutside, "outside points"),
+        (C::ContainsOn, "points on lines"),
+        (C::ContainsOff, "points off lines"),
+    ];
+    for (c, what) in need {
+        if total.get(c) == 0 {
+            run.machinery_failure(&format!("non-vacuity: the enumeration contains no {what}"));
+        }
+    }
+    if total.get(C::LlPoint) == total.get(C::LlPointFar) {
+        run.machinery_failure("non-vacuity: every line-line point was beyond 1e3");
+    }
+
+    for (_, (_, v)) in std::mem::take(&mut total.fails) {
+        run.violation(v);
+    }
+    run.finish(&confirm)
+}
